@@ -219,6 +219,10 @@ class HamiltonianChain(MarkovChain):
                 dt = 1e-8
             t_step = t.copy()
             t_step[i] += dt
+            # step towards the interior if the difference point would leave the bounds
+            if self.bounds is not None and not self.bounds.inside(t_step):
+                dt = -dt
+                t_step[i] = t[i] + dt
             G[i] = (self.posterior(t_step) * self.inv_temp - p) / dt
         return G
 
